@@ -216,9 +216,56 @@ func runC42(c *Ctx) {
 		if start == nil {
 			c.Undecided("ProcessWithStatus: out-of-order edge not found")
 		} else {
+			// a helper that stores its item argument into pending under its key argument on every path
+			bufferHelper := func(ci ssa.CallInstruction) bool {
+				h := samePkgHelper(pws, ci.Common())
+				if h == nil || h.Parent() != nil || len(ci.Common().Args) < 3 || trace(ci.Common().Args[0]) != "p0" {
+					return false
+				}
+				var upd *ssa.MapUpdate
+				for _, in := range fnInstrs(h) {
+					if mu, ok := in.(*ssa.MapUpdate); ok && trace(mu.Map) == "pending<p0" {
+						upd = mu
+					}
+				}
+				if upd == nil {
+					return false
+				}
+				kp, okK := upd.Key.(*ssa.Parameter)
+				vp, okV := upd.Value.(*ssa.Parameter)
+				if !okK || !okV {
+					return false
+				}
+				ki, vi := -1, -1
+				for i, q := range h.Params {
+					if q == kp {
+						ki = i
+					}
+					if q == vp {
+						vi = i
+					}
+				}
+				if ki < 0 || vi < 0 || ki >= len(ci.Common().Args) || vi >= len(ci.Common().Args) {
+					return false
+				}
+				if trace(ci.Common().Args[ki]) != "SequenceNumber(p2)" || trace(ci.Common().Args[vi]) != "p2" {
+					return false
+				}
+				// on every path of the helper
+				avoid := map[*ssa.BasicBlock]bool{upd.Block(): true}
+				for b := range reachAvoidBlocks(h.Blocks[0], avoid) {
+					if _, isR := b.Instrs[len(b.Instrs)-1].(*ssa.Return); isR {
+						return false
+					}
+				}
+				return heldAt(pws, ci.(ssa.Instruction), ".mu", []string{"Lock"}, []string{"Unlock"})
+			}
 			isBuf := func(b *ssa.BasicBlock) bool {
 				for _, in := range b.Instrs {
 					if mu, ok := in.(*ssa.MapUpdate); ok && trace(mu.Map) == "pending<p0" && trace(mu.Value) == "p2" && trace(mu.Key) == "SequenceNumber(p2)" {
+						return true
+					}
+					if ci, ok := in.(ssa.CallInstruction); ok && bufferHelper(ci) {
 						return true
 					}
 				}
@@ -416,7 +463,48 @@ func runC43(c *Ctx) {
 	}
 	// (2)/(3) writers of outstanding
 	sub := c.SSAFunc(rel, "BlockPipeline.Submit")
-	nW := 0
+	// the hand-off (select sending on submitChan) may live in a helper only Submit calls: the accounting rules are
+	// read in the function that holds it
+	{
+		has := func(g *ssa.Function) bool {
+			for _, e := range selectEdges(g) {
+				if isSendOn(e.st, "submitChan<p0") {
+					return true
+				}
+			}
+			return false
+		}
+		if !has(sub) {
+			for _, g := range closureFuncs(sub, 2) {
+				if g != sub && ownedBy(g, []string{ssaFuncKey(sub)}, 1) && has(g) {
+					sub = g
+					break
+				}
+			}
+		}
+	}
+	// the processed callback: the function handed to SetProcessedFunc (a func literal or a method value)
+	var processedFn *ssa.Function
+	if st := c.SSAFunc(rel, "BlockPipeline.Start"); st != nil {
+		for _, ci := range allCalls(st) {
+			if cal := ci.Common().StaticCallee(); cal != nil && cal.Name() == "SetProcessedFunc" && len(ci.Common().Args) == 2 {
+				switch x := ci.Common().Args[1].(type) {
+				case *ssa.MakeClosure:
+					processedFn, _ = x.Fn.(*ssa.Function)
+					if processedFn != nil && processedFn.Synthetic != "" && processedFn.Object() != nil {
+						if m, ok := processedFn.Object().(*types.Func); ok {
+							if mf := c.W.Prog.FuncValue(m); mf != nil {
+								processedFn = mf
+							}
+						}
+					}
+				case *ssa.Function:
+					processedFn = x
+				}
+			}
+		}
+	}
+	nW, nPlus, nMinus, nProc := 0, 0, 0, 0
 	for _, fn := range c.pkgFuncs(rel) {
 		for _, ci := range allCalls(fn) {
 			cc := ci.Common()
@@ -435,6 +523,7 @@ func runC43(c *Ctx) {
 			}
 			switch {
 			case fn == sub && cal.Name() == "Add" && delta == "1":
+				nPlus++
 				// dominates the hand-off select
 				ok := false
 				for _, e := range selectEdges(sub) {
@@ -444,27 +533,37 @@ func runC43(c *Ctx) {
 				}
 				c.Check(ok, "outstanding-accounting", fk+":increment-before-handoff", ci.Pos(), "counted before the item becomes receivable", "the item is counted only after it may already have been received by a worker: drain can observe 0 while the block is in flight")
 			case fn == sub && cal.Name() == "Add" && (delta == "-1"):
-				// on a non-send branch of the hand-off select
+				nMinus++
+				// only on paths where the hand-off did not happen: unreachable once the send edge is taken, and
+				// reachable from a failed (receive) branch of the same select
 				onFail := false
 				for _, e := range selectEdges(sub) {
-					if e.st.Dir == types.RecvOnly && e.from.Succs[0] == ci.Block() {
-						// same select as the hand-off?
-						for _, st := range e.sel.States {
-							if isSendOn(st, "submitChan<p0") {
+					if !isSendOn(e.st, "submitChan<p0") {
+						continue
+					}
+					sent := reachFromAvoiding([]*ssa.BasicBlock{e.from}, func(from *ssa.BasicBlock, succ int) bool { return from == e.from && succ != 0 })
+					if sent[ci.Block()] {
+						continue
+					}
+					for _, e2 := range selectEdges(sub) {
+						if e2.sel == e.sel && e2.st.Dir == types.RecvOnly {
+							tgt := e2.from.Succs[0]
+							if tgt == ci.Block() || reachAvoidBlocks(tgt, nil)[ci.Block()] {
 								onFail = true
 							}
 						}
 					}
 				}
 				c.Check(onFail, "outstanding-accounting", fk+":decrement-on-failed-handoff@"+c.returnKey(sub, ci.Block()), ci.Pos(), "un-counted exactly when the hand-off did not happen", "outstanding is decremented in Submit on a path where the item was handed over (or not on a failed hand-off branch)")
-			case fn.Parent() != nil && fn.Parent().Name() == "Start" && cal.Name() == "Add" && strings.HasPrefix(delta, "-"):
+			case (fn == processedFn || fn.Parent() != nil && fn.Parent().Name() == "Start") && cal.Name() == "Add" && strings.HasPrefix(delta, "-"):
+				nProc++
 				c.Check(delta == "-p0" || delta == "(0 - p0)" || strings.HasPrefix(delta, "-"), "outstanding-accounting", fk+":processed-callback", ci.Pos(), "the processed callback subtracts the number of finished items", "the processed callback changes outstanding by "+delta)
 			default:
 				c.Bad("outstanding-accounting", fk+":"+cal.Name()+"("+shortArg(delta)+")", ci.Pos(), "outstanding is modified in %s by %s(%s), outside Submit's hand-off accounting and the processed callback", fk, cal.Name(), delta)
 			}
 		}
 	}
-	c.Check(nW == 4, "outstanding-accounting", rel+":writers", sub.Pos(), "four writers: +1, two failed-hand-off −1, processed callback", fmt.Sprintf("%d writers of outstanding found, expected 4", nW))
+	c.Check(nPlus == 1 && nMinus >= 1 && nProc == 1 && nW == nPlus+nMinus+nProc, "outstanding-accounting", rel+":writers", sub.Pos(), "writers: one +1, the failed-hand-off −1(s), the processed callback", fmt.Sprintf("%d writers of outstanding found (+1: %d, failed hand-off −1: %d, processed callback: %d)", nW, nPlus, nMinus, nProc))
 	// every failed branch of the hand-off decrements
 	for _, e := range selectEdges(sub) {
 		isHandoff := false
@@ -477,11 +576,21 @@ func runC43(c *Ctx) {
 			continue
 		}
 		tgt := e.from.Succs[0]
-		has := false
+		// every path from the failed branch to a return gives the count back
+		dec := map[*ssa.BasicBlock]bool{}
 		for _, ci := range allCalls(sub) {
-			if ci.Block() == tgt && ci.Common().StaticCallee() != nil && ci.Common().StaticCallee().Name() == "Add" && strings.HasSuffix(trace(ci.Common().Args[0]), "outstanding<p0") && trace(ci.Common().Args[1]) == "-1" {
-				has = true
+			if ci.Common().StaticCallee() != nil && ci.Common().StaticCallee().Name() == "Add" && strings.HasSuffix(trace(ci.Common().Args[0]), "outstanding<p0") && trace(ci.Common().Args[1]) == "-1" {
+				dec[ci.Block()] = true
 			}
+		}
+		has := true
+		for b := range reachAvoidBlocks(tgt, dec) {
+			if _, isR := b.Instrs[len(b.Instrs)-1].(*ssa.Return); isR && !dec[b] {
+				has = false
+			}
+		}
+		if !dec[tgt] && len(reachAvoidBlocks(tgt, dec)) == 0 {
+			has = false
 		}
 		c.Check(has, "outstanding-accounting", ssaFuncKey(sub)+":failed-handoff-uncounted:"+shortArg(trace(e.st.Chan)), e.sel.Pos(), "a failed hand-off gives the count back", "a failed hand-off ("+shortArg(trace(e.st.Chan))+") leaves the item counted forever: WaitForDrain never returns")
 	}
@@ -604,6 +713,7 @@ func runC44(c *Ctx) {
 	sk := ssaFuncKey(sub)
 	var handoff *selEdge
 	var slotAcq *selEdge
+	hf := sub // the function holding the hand-off select: Submit, or a helper only Submit calls
 	for _, e := range selectEdges(sub) {
 		e := e
 		if isSendOn(e.st, "submitChan<p0") {
@@ -611,6 +721,19 @@ func runC44(c *Ctx) {
 		}
 		if isSendOn(e.st, "submitSlot<p0") {
 			slotAcq = &e
+		}
+	}
+	if handoff == nil {
+		for _, g := range closureFuncs(sub, 2) {
+			if g == sub || !ownedBy(g, []string{sk}, 1) {
+				continue
+			}
+			for _, e := range selectEdges(g) {
+				e := e
+				if isSendOn(e.st, "submitChan<p0") {
+					handoff, hf = &e, g
+				}
+			}
 		}
 	}
 	if handoff == nil {
@@ -668,22 +791,27 @@ func runC44(c *Ctx) {
 			}
 			nMut++
 			fk := ssaFuncKey(fn)
-			if fn != sub {
+			if fn != sub && fn != hf {
 				c.Bad("sequence-consumed-on-handoff", fk+":"+cal.Name(), ci.Pos(), "sequenceCounter is modified in %s, outside Submit", fk)
 				continue
 			}
-			reach, _ := reachAvoiding(sub, func(from *ssa.BasicBlock, succ int) bool { return from == handoff.from && succ == 0 })
+			if fn != hf {
+				c.Undecided("%s: the counter is consumed in Submit while the hand-off lives in %s; the consumed-on-handoff rule reads both in one function", sk, hf.Name())
+			}
+			reach, _ := reachAvoiding(hf, func(from *ssa.BasicBlock, succ int) bool { return from == handoff.from && succ == 0 })
 			dominated := !reach[ci.Block()]
 			okDelta := cal.Name() == "Add" && trace(cc.Args[1]) == "1"
-			c.Check(dominated && okDelta, "sequence-consumed-on-handoff", fk+":"+cal.Name()+"@"+c.returnKey(sub, ci.Block()), ci.Pos(), "a sequence number is consumed (+1) only after the item carrying it was handed over", "sequenceCounter."+cal.Name()+" is reachable without the hand-off having succeeded: a submission that fails (context expired while the pipeline is full) consumes or disturbs a sequence number, leaving a gap the apply stage waits on forever")
+			c.Check(dominated && okDelta, "sequence-consumed-on-handoff", sk+":"+cal.Name()+"@"+c.returnKey(hf, ci.Block()), ci.Pos(), "a sequence number is consumed (+1) only after the item carrying it was handed over", "sequenceCounter."+cal.Name()+" is reachable without the hand-off having succeeded: a submission that fails (context expired while the pipeline is full) consumes or disturbs a sequence number, leaving a gap the apply stage waits on forever")
 		}
 	}
 	c.Check(nMut == 1, "sequence-consumed-on-handoff", sk+":mutations", sub.Pos(), "one mutation of sequenceCounter", fmt.Sprintf("%d mutations of sequenceCounter found, expected 1", nMut))
 	// (1) the item's number is Load() under the slot
 	var item *ssa.Call
-	for _, ci := range allCalls(sub) {
-		if cal := ci.Common().StaticCallee(); cal != nil && cal.Name() == "NewBlockItem" {
-			item, _ = ci.(*ssa.Call)
+	for _, g := range []*ssa.Function{sub, hf} {
+		for _, ci := range allCalls(g) {
+			if cal := ci.Common().StaticCallee(); cal != nil && cal.Name() == "NewBlockItem" {
+				item, _ = ci.(*ssa.Call)
+			}
 		}
 	}
 	if item == nil {
@@ -691,7 +819,7 @@ func runC44(c *Ctx) {
 	} else {
 		st := trace(item.Call.Args[3])
 		c.Check(st == "Load(sequenceCounter<p0)", "sequence-consumed-on-handoff", sk+":item-number", item.Pos(), "the item carries the current counter value", "the item's sequence number is "+shortArg(st)+", not the current counter value")
-		c.Check(trace(handoff.st.Send) == trace(item), "sequence-consumed-on-handoff", sk+":item-sent", handoff.sel.Pos(), "the item carrying that number is what is sent", "the value sent on submitChan is not the item built with the sequence number")
+		c.Check(traceIP(sub, handoff.st.Send) == traceIP(sub, item), "sequence-consumed-on-handoff", sk+":item-sent", handoff.sel.Pos(), "the item carrying that number is what is sent", "the value sent on submitChan is not the item built with the sequence number")
 	}
 	// (3) slot
 	if slotAcq == nil {
